@@ -313,6 +313,25 @@ func (fv *FuncVC) typeFacts(term string, t types.Type) string {
 			term, term, fv.heapGet("alloc", "Int"), term, term, term, term, term, term, term)
 	case *types.Interface:
 		return fmt.Sprintf("(and (<= 0 (i.typ %s)) (=> (= (i.typ %s) 0) (= (i.val %s) 0)))", term, term, term)
+	case *types.Struct:
+		// a struct value: every field is a value of its type (machine-integer ranges, slice shapes ...)
+		if u.NumFields() == 0 || u.NumFields() > 24 {
+			return "true"
+		}
+		sn := fv.g.sorts.structSort(t, u)
+		var parts []string
+		for i := 0; i < u.NumFields(); i++ {
+			ft := u.Field(i).Type()
+			if _, nested := ft.Underlying().(*types.Struct); nested {
+				continue // one level is enough for decoded argument records
+			}
+			if f := fv.typeFacts("("+fieldAcc(sn, i)+" "+term+")", ft); f != "true" {
+				parts = append(parts, f)
+			}
+		}
+		if len(parts) > 0 {
+			return and(parts...)
+		}
 	}
 	return "true"
 }
